@@ -91,6 +91,24 @@ KFN void k_bson_end(unsigned which, unsigned long length, unsigned long pos, uns
     if (which) p->end_array(v, ec); else p->end_document(v, ec);
     r->ec = ec ? ec.value() : 0; r->stack = p->state_stack_.size(); r->parent_pos = p->state_stack_.size() >= 2 ? p->state_stack_[1].pos : 0; r->more = p->more_;
 }
+// BSON scalar elements: read_value(visitor, type, ec) from raw parser state; the element type reaches read_value as a constant (one call site per type)
+struct bvres { int ec; unsigned nev; unsigned long consumed; unsigned long pos; int more; };
+template <unsigned TYPE> static inline void bson_value(const unsigned char* s, unsigned long n, jev* evs, bvres* r) {
+    RAWOBJ(bsonp_t, p);
+    new (&p->source_) bytes_source(jsoncons::span<const uint8_t>(s, n));
+    p->more_ = true; p->max_nesting_depth_ = 1024;
+    new (&p->state_stack_) std::vector<bson::parse_state>(); p->state_stack_.reserve(4);
+    p->state_stack_.emplace_back(bson::parse_mode::root, 0, 0); p->state_stack_.emplace_back(bson::parse_mode::document, 1000, 7);
+    jrec v(evs, 2); std::error_code ec;
+    p->read_value(v, (uint8_t)TYPE, ec);
+    r->ec = ec ? ec.value() : 0; r->nev = v.n; r->consumed = p->source_.position(); r->pos = p->state_stack_.back().pos; r->more = p->more_;
+}
+KFN void k_bson_value(unsigned type, const unsigned char* s, unsigned long n, jev* evs, bvres* r) {
+    if (type == 0x01) bson_value<0x01>(s, n, evs, r); else if (type == 0x06) bson_value<0x06>(s, n, evs, r); else if (type == 0x08) bson_value<0x08>(s, n, evs, r);
+    else if (type == 0x09) bson_value<0x09>(s, n, evs, r); else if (type == 0x0a) bson_value<0x0a>(s, n, evs, r); else if (type == 0x10) bson_value<0x10>(s, n, evs, r);
+    else if (type == 0x11) bson_value<0x11>(s, n, evs, r); else bson_value<0x12>(s, n, evs, r);
+}
+KFN int k_dlim_tag(unsigned which) { return which == 0 ? (int)semantic_tag::none : which == 1 ? (int)semantic_tag::epoch_milli : (int)semantic_tag::undefined; }
 KFN int k_dlim_errc(unsigned fmt, unsigned which) {
     switch (fmt) {
         case 0: return (int)json_errc::max_nesting_depth_exceeded;
